@@ -10,6 +10,7 @@ aligned step by step.  Every result is compared with
   (b) a STATELESS recomputation on fresh objects parsed from the root's serialised key,
   (c) for the watch-only wallet: the full wallet's data below the exported node,
   (d) the network tag of every emitted string."""
+import json
 import os
 import threading
 
@@ -154,6 +155,21 @@ def lifetime_check(W):
         return out
     before = [(path, view(n)) for path, n in keep]
     nodes = [n for path, n in keep]
+    # a deep copy / pickle round trip of the wallet answers like the wallet (skipped if the wallet does not support it)
+    import copy
+    import pickle
+    for how, f in (("deepcopy", copy.deepcopy), ("pickle", lambda x: pickle.loads(pickle.dumps(x)))):
+        try:
+            w2 = f(W.full)
+        except Exception:
+            continue
+        for path, b in before:
+            try:
+                n2 = w2.by_path(path_str(path))
+            except Exception as ex:
+                raise Mismatch("purity", "by_path(%s) on a %s of the wallet raised %r" % (path_str(path), how, ex))
+            if World.fields(n2) != b[0] or n2.extended_public_key() != b[2]:
+                raise Mismatch("purity", "node %s looked up on a %s of the wallet differs from the wallet's own" % (path_str(path), how))
     W.objs.clear()
     W.gens.clear()
     W.pending.clear()
@@ -628,3 +644,130 @@ def stress_threads(seconds=8, seed=0, nthreads=12, switch=1e-6):
     if shared.master.extended_private_key() != root_xprv:
         raise Mismatch("purity", "threads: the root key changed")
     return {"threads": nthreads, "calls": calls[0], "seconds": seconds}
+
+
+# ------------------------------------------------------------------ cold start under threads
+_COLD_SCRIPT = r'''
+import json, sys, threading, time, random
+sys.setswitchinterval(float(sys.argv[3]))
+spec = json.load(open(sys.argv[1]))
+nthreads = int(sys.argv[2])
+yrng = random.Random(int(sys.argv[4]))
+import os
+barrier = threading.Barrier(nthreads)
+out = [None] * nthreads
+
+
+def local(frame, event, arg):
+    if event == "line" and yrng.random() < 0.5:
+        time.sleep(0.00002)
+    return local
+
+
+def tracer(frame, event, arg):
+    if event == "call" and "btc_hd_wallet" in frame.f_code.co_filename and not frame.f_code.co_filename.endswith(("ripemd.py", "bech32.py", "bip39_wordlist.py")):
+        return local
+    return None
+
+
+def work(k):
+    res = []
+    barrier.wait()
+    # the FIRST use of the library in this process happens here, in all threads at once
+    from btc_hd_wallet import PaperWallet
+    reqs = spec["requests"][k::nthreads] + spec["requests"][:3]
+    for r in reqs:
+        try:
+            if r["kind"] == "import":
+                w = PaperWallet.from_extended_key(r["key"])
+                n = w.master
+                item = {"net": bool(w.testnet), "watch": bool(w.watch_only), "xpub": n.extended_public_key(),
+                        "p2wpkh": w.p2wpkh_address(n), "p2pkh": w.p2pkh_address(n), "p2sh": w.p2sh_p2wpkh_address(n),
+                        "keys": w.node_extended_keys(n)}
+                if not w.watch_only:
+                    item["wif"] = n.private_key.wif(testnet=w.testnet)
+                    item["rows"] = w.bip84(account=0, interval=(0, 1))
+            elif r["kind"] == "seed":
+                w = PaperWallet.from_bip39_seed_hex(r["seed"], testnet=r["testnet"])
+                item = {"gen": w.generate(account=r["account"], interval=(0, 2)), "wasabi": w.wasabi_json() if not r["testnet"] else None}
+            else:
+                w = PaperWallet.from_mnemonic(r["mnemonic"], r["password"], testnet=r["testnet"])
+                item = {"xprv": w.master.extended_private_key(), "bip85": w.bip85.bip39_mnemonic(12, 0), "path": w.node_extended_keys(w.by_path(r["path"]))}
+            res.append([r["id"], json.loads(json.dumps(item))])
+        except Exception as ex:
+            res.append([r["id"], {"raised": type(ex).__name__}])
+    out[k] = res
+
+
+threading.settrace(tracer)
+ths = [threading.Thread(target=work, args=(k,)) for k in range(nthreads)]
+for t in ths:
+    t.start()
+for t in ths:
+    t.join()
+json.dump(out, sys.stdout)
+'''
+
+
+def cold_start_requests():
+    """the request mix of the cold-start test"""
+    from . import refprims as R, refwallet as W
+    reqs = []
+    tab = R.Table()
+    rm = W.master(tab, bytes.fromhex("5e" * 64), "main")
+    for t, ver in sorted(W.VERSIONS.items()):
+        node = rm if t[0] == "prv" else W.neuter(rm)
+        node.net = t[1]
+        reqs.append({"id": "import-%s-%s-%s" % t, "kind": "import", "key": W.ser(tab, node, ver, t[0] == "prv")})
+    for testnet in (False, True):
+        for acct in (0, 5):
+            reqs.append({"id": "seed-%s-%d" % (testnet, acct), "kind": "seed", "seed": "5e" * 64, "testnet": testnet, "account": acct})
+        reqs.append({"id": "mn-%s" % testnet, "kind": "mnemonic", "testnet": testnet, "password": "päss",
+                     "mnemonic": "legal winner thank year wave sausage worth useful legal winner thank yellow", "path": "m/49'/1'/0'/0/3"})
+    return reqs
+
+
+def cold_start_threads(nproc=6, nthreads=8, seed=0):
+    """Fresh interpreter processes whose FIRST use of the library is made by several threads released together
+    (with injected preemption): one-time initialisation (lazily built tables, import-time caches) must not leak a
+    half-built state into any answer.  Every answer is compared with the one computed in this process, sequentially.
+    Raises Mismatch."""
+    import subprocess
+    import tempfile
+    from .core import REPO
+    reqs = cold_start_requests()
+    # sequential reference: the same script, one thread, no preemption
+    d = tempfile.mkdtemp(prefix="cold.", dir="/dev/shm" if os.path.isdir("/dev/shm") else None)
+    try:
+        with open(os.path.join(d, "spec.json"), "w") as f:
+            json.dump({"requests": reqs}, f)
+        with open(os.path.join(d, "cold.py"), "w") as f:
+            f.write(_COLD_SCRIPT)
+        env = dict(os.environ, PYTHONPATH=REPO, PYTHONDONTWRITEBYTECODE="1")
+
+        def run(nt, switch, sd):
+            p = subprocess.run(["/venv/bin/python", os.path.join(d, "cold.py"), os.path.join(d, "spec.json"), str(nt), str(switch), str(sd)],
+                               env=env, stdout=subprocess.PIPE, stderr=subprocess.PIPE, timeout=900)
+            if p.returncode != 0:
+                raise RuntimeError("cold-start driver failed: " + p.stderr.decode("utf-8", "replace")[-500:])
+            res = {}
+            for th in json.loads(p.stdout.decode("utf-8")):
+                for rid, item in th:
+                    res.setdefault(rid, []).append(item)
+            return res
+        ref = {rid: items[0] for rid, items in run(1, 0.005, 0).items()}
+        checks = 0
+        for k in range(nproc):
+            got = run(nthreads if k % 2 == 0 else 3, [1e-6, 1e-5, 0.005][k % 3], seed * 1000 + k)
+            for rid, items in got.items():
+                for item in items:
+                    checks += 1
+                    if item != ref[rid]:
+                        fam = "network" if (isinstance(item, dict) and isinstance(ref[rid], dict) and item.get("net") != ref[rid].get("net")) else "purity"
+                        keys = [x for x in ref[rid] if not isinstance(item, dict) or item.get(x) != ref[rid].get(x)] if isinstance(ref[rid], dict) else []
+                        raise Mismatch(fam, "cold start: request %s answered differently when the library's first use is made by %d threads "
+                                            "at once (fields %s)" % (rid, nthreads if k % 2 == 0 else 3, keys[:4]))
+        return checks
+    finally:
+        import shutil
+        shutil.rmtree(d, ignore_errors=True)
